@@ -6,7 +6,7 @@
 export GOFLAGS=-mod=mod GOPROXY=off GOSUMDB=off GOTOOLCHAIN=local
 J=${1:-6}
 SRC=${2:-HEAD}
-ls -d /verif/seeded/*/ | xargs -n1 basename > /tmp/cd.list
+ls -d /verif/seeded/[A-Z]*/ | xargs -n1 basename > /tmp/cd.list
 split -n l/$J /tmp/cd.list /tmp/cd.part.
 for part in /tmp/cd.part.*; do
 (
